@@ -591,7 +591,7 @@ pub fn eval_misuse(sc: &Scenario) -> CaseResult {
             .ops
             .iter()
             .filter_map(|o| match o {
-                Op::Misuse { tick, peer, kind: 1, arg } => Some(Op::Misuse { tick: *tick, peer: *peer, kind: 99, arg: *arg }),
+                Op::Misuse { tick, peer, kind: 1 | 6, arg } => Some(Op::Misuse { tick: *tick, peer: *peer, kind: 99, arg: *arg }),
                 Op::Misuse { .. } => None,
                 other => Some(other.clone()),
             })
@@ -613,6 +613,7 @@ pub fn eval_misuse(sc: &Scenario) -> CaseResult {
             r.classes.push(match m.1 {
                 0 => "add_local_input_wrong_handle",
                 1 => "advance_without_input_or_before_sync",
+                6 => "advance_with_inputs_for_some_local_players_only",
                 3 => "disconnect_local_unknown_or_twice",
                 4 => "set_input_delay_wrong_type",
                 5 => "network_stats_wrong_type",
@@ -637,11 +638,11 @@ pub fn gen_misuse(tier: Tier) -> BoxedStrategy<Scenario> {
     p.pauses = 0;
     p.outages = 0;
     p.windows.push((2, 0));
-    (scenario(&p), proptest::collection::vec((any::<u16>(), any::<u16>(), 0u8..5, 0u8..9), 1..16))
+    (scenario(&p), proptest::collection::vec((any::<u16>(), any::<u16>(), 0u8..7, 0u8..9), 1..16))
         .prop_map(|(mut sc, ms)| {
             let np = sc.peers.len();
             for (t, pe, kind, arg) in ms {
-                let kind = [0u8, 1, 3, 4, 5][kind as usize % 5];
+                let kind = [0u8, 1, 3, 4, 5, 6, 6][kind as usize % 7];
                 let tick = if t % 5 == 0 { (t % 12) as u32 } else { idx(t, sc.ticks.max(1) as usize) as u32 };
                 sc.ops.push(Op::Misuse { tick, peer: idx(pe, np) as u8, kind, arg });
             }
